@@ -102,7 +102,7 @@ def check(ctx):
                 e = ["Primitive::Char(Option::unwrap(SliceRandom::choose(%s,%s)))" % (ANY, R)]
                 w = "a char chosen from a literal array"
             else:
-                e = ["Primitive::String(Into::into(Option::unwrap(SliceRandom::choose(%s,%s))))" % (ANY, R)]
+                e = ["Primitive::String(Option::unwrap(SliceRandom::choose(%s,%s)))" % (ANY, R)]
                 w = "a string chosen from a literal array"
             expect_term(ctx, "C12.2", "width/" + v, arm, t, e, w)
         wt = show(Np.term(pf["body"]))
@@ -110,7 +110,7 @@ def check(ctx):
     # fields
     expect_fn(ctx, "C12.3", "fields", "scale_value::fields_type_example",
               "match((Iterator::all(P0,|1|{Option::is_some(C1_0.0)}),Iterator::all(P0,|1|{Option::is_none(C1_0.0)}))){(true,true)=>Ok(Composite::Unnamed(Vec::new()));"
-              "(true,false)=>Ok(Composite::named(Iterator::collect(Iterator::map(P0,|1|{Ok((Into::into(Option::unwrap(C1_0.0)),Transformer::resolve(P1,C1_0.1)?))}))?));"
+              "(true,false)=>Ok(Composite::named(Iterator::collect(Iterator::map(P0,|1|{Ok((Option::unwrap(C1_0.0),Transformer::resolve(P1,C1_0.1)?))}))?));"
               "(false,true)=>Ok(Composite::unnamed(Iterator::collect(Iterator::map(P0,|1|{Transformer::resolve(P1,C1_0.1)}))?));"
               "(false,false)=>Err(%s)}" % ANY,
               "no fields -> empty unnamed; all named -> named composite of (name, example of id) in order; all unnamed -> unnamed composite in order; mixed -> Err", DR.D)
